@@ -4,6 +4,65 @@ import (
 	"verif/harness/sym"
 )
 
+// C09_reuse: one parsed executable resolved twice: first with the condition
+// variables supplied, then left to their declared defaults (and the other way
+// round); each call follows the inclusion logic for ITS values.
+func C09_reuse() {
+	var log []string
+	q := newGraph(&log, 0)
+	root := kitRoot(q)
+	ds := sym.Bool("skip default")
+	di := sym.Bool("include default")
+	b2s := func(b bool) string {
+		if b {
+			return "true"
+		}
+		return "false"
+	}
+	dirs := " @skip(if:$s) @include(if:$i)"
+	if sym.Choice("order", 2) == 1 {
+		dirs = " @include(if:$i) @skip(if:$s)"
+	}
+	var body string
+	switch sym.Choice("selection kind", 3) {
+	case 0:
+		body = "{s a" + dirs + "}"
+	case 1:
+		body = "{s ...on Query" + dirs + "{a}}"
+	default:
+		body = "{s ...F" + dirs + "} fragment F on Query{a}"
+	}
+	doc := "query($s:Boolean=" + b2s(ds) + " $i:Boolean=" + b2s(di) + ")" + body
+	exe, err := root.ParseExecutableString(doc)
+	sym.Assert(err == nil, "document accepted")
+	for call := 0; call < 2; call++ {
+		skip, incl := ds, di
+		vars := map[string]interface{}{}
+		if sym.Choice("skip supplied", 2) == 1 {
+			skip = sym.Bool("skip value")
+			vars["s"] = skip
+		}
+		if sym.Choice("include supplied", 2) == 1 {
+			incl = sym.Bool("include value")
+			vars["i"] = incl
+		}
+		log = log[:0]
+		res, _ := root.ResolveExecutable(exe, "", vars)
+		data, _ := res["data"].(map[string]interface{})
+		sym.Assert(data != nil, "data present")
+		_, has := data["a"]
+		included := sym.And(!skip, incl)
+		sym.Assert(has == included, "selection present iff included")
+		ran := false
+		for _, l := range log {
+			if l == "q.a" {
+				ran = true
+			}
+		}
+		sym.Assert(ran == included, "resolver runs iff included")
+	}
+}
+
 // dirArg renders one of @skip/@include in an E-chosen form and returns the
 // rendered text and the truth value of its condition (S).
 //
